@@ -95,7 +95,7 @@ class Parent(AbstractParent):
                     "Location end ({}) is greater than sequence length ({})".format(location.end, len(sequence))
                 )
 
-        parent_obj = inscripta.biocantor.parent.make_parent(parent) if parent else None
+        parent_obj = inscripta.biocantor.parent.make_parent(parent) if parent is not None else None
         if (
             sequence is not None
             and parent_obj
